@@ -327,6 +327,17 @@ def run_sequence(cases, rrqs, limits):
         shim.socket = lambda **k: fake_net.FakeSock(list(script), clock, log, 0)
         old = (S.socket, S.time, S._TftpReadRequest)
         S.socket, S.time, S._TftpReadRequest = shim, types.SimpleNamespace(monotonic=lambda: clock[0]), Rec
+        import threading as real_threading
+        started = []
+
+        class RecThread(real_threading.Thread):
+            def start(self_t):
+                started.append(self_t)
+                return super().start()
+        old_thr = S.threading
+        thr = types.SimpleNamespace(**{k: getattr(real_threading, k) for k in dir(real_threading) if not k.startswith("__")})
+        thr.Thread = RecThread
+        S.threading = thr
         h = fake_net._Log(log)
         S.logger.addHandler(h)
         old_level, old_prop = S.logger.level, S.logger.propagate
@@ -339,12 +350,13 @@ def run_sequence(cases, rrqs, limits):
                 srv._process_request(rq, fake_net.CLI, fake_net.SRV)
             except Exception as ex:
                 log.append(("logexc", type(ex).__name__))
-            for r in created:
-                r._thread.join(60)
-                if r._thread.is_alive():
+            for t in started:                  # not by a private attribute name of the request object
+                t.join(60)
+                if t.is_alive():
                     log.append(("hang",))
         finally:
             S.socket, S.time, S._TftpReadRequest = old
+            S.threading = old_thr
             S.logger.removeHandler(h)
             S.logger.setLevel(old_level)
             S.logger.propagate = old_prop
